@@ -557,6 +557,9 @@ class World(object):
         self.fds = {}
         self.next_fd = 10
         self.closing = False
+        self.finished = False
+        self.tick = 0               # number of external events so far
+        self.slow_hooks = False     # disconnect hooks take until the next external event
         self.children = []
         self.server = None
         self.last_accepted = None
@@ -564,8 +567,11 @@ class World(object):
         self.signal = FakeSignal()
 
     def new_fd(self, h):
-        fd = self.next_fd
-        self.next_fd += 1
+        # like a kernel: the lowest descriptor number that no open descriptor of the server process uses
+        used = set(x.fd for x in self.handles if isinstance(x, FakeSock) and not x.closed and x.owner == 0)
+        fd = 10
+        while fd in used:
+            fd += 1
         self.fds[fd] = h
         return fd
 
@@ -632,7 +638,17 @@ AUTHENTICATORS = {False: None, None: None, True: token_authenticator, "token": t
 AUTH_KINDS = [False, "token", "wrap"]
 
 
-def make_service():
+def _in_finalizer():
+    import sys
+    f = sys._getframe(1)
+    while f is not None:
+        if f.f_code.co_name == "__del__":
+            return True
+        f = f.f_back
+    return False
+
+
+def make_service(world=None):
     import rpyc
 
     class Svc(rpyc.Service):
@@ -648,6 +664,12 @@ def make_service():
 
         def on_disconnect(self, conn):
             Svc.disconnected.append(self)
+            w = world
+            if w is FakePoll.WORLD[0] and w.slow_hooks and not w.finished and w.sched.current is not None \
+                    and w.sched.current.pid == 0 and not w.closing and not _in_finalizer():
+                # application code: the hook takes its time (here: until the next external event)
+                t0 = w.tick
+                w.sched.block("disconnect-hook", lambda: w.tick > t0 or w.closing)
 
         def exposed_whoami(self):
             return id(self)
@@ -740,12 +762,13 @@ EVENTS = ["G", "C", "Lf", "Lr", "B-huge-length", "B-bad-zlib", "B-bad-brine", "B
 class Scenario(object):
     """one history against one server configuration"""
 
-    def __init__(self, kind, with_auth, interp=None):
+    def __init__(self, kind, with_auth, interp=None, slow_hooks=False):
         from rpyc.core import consts
         self.kind, self.with_auth = kind, with_auth
         self.world = World(interp)
+        self.world.slow_hooks = slow_hooks
         install(self.world)
-        self.Svc = make_service()
+        self.Svc = make_service(self.world)
         self.log = Log()
         cls = server_class(kind)
         kw = dict(port=0, hostname="127.0.0.1", logger=self.log, auto_register=False,
@@ -843,6 +866,7 @@ class Scenario(object):
         return out
 
     def apply(self, ev):
+        self.world.tick += 1
         live_good = [c for c in self.clients if c["kind"] == "G" and not c["left"] and not c["refused"]]
         live_any = [c for c in self.clients if not c["left"] and not c["refused"]]
         closers = []
@@ -875,6 +899,7 @@ class Scenario(object):
         self.world.sched.quiesce()
 
     def finish(self):
+        self.world.finished = True
         self.world.sched.kill_all()
 
     # -- observations ------------------------------------------------------------------
@@ -897,12 +922,25 @@ def tables_mentioning(sc, c):
     ep = c["ep"]
     if any(getattr(s, "ep", None) is ep for s in srv.clients):
         out.append("clients")
-    fds = [h.fd for h in sc.world.handles if isinstance(h, FakeSock) and h.ep is ep]
+    w = sc.world
+
+    def owner_ep(fd, conn=None):
+        # whose connection an entry under descriptor number fd is about (numbers are reused once closed)
+        sock = None
+        if conn is not None:
+            try:
+                sock = conn._channel.stream.sock
+            except Exception:
+                sock = None
+        if getattr(sock, "ep", None) is not None:
+            return sock.ep
+        h = w.fds.get(fd)
+        return getattr(h, "ep", None)
     f2c = getattr(srv, "fd_to_conn", None)
-    if f2c is not None and any(fd in f2c for fd in fds):
+    if f2c is not None and any(owner_ep(fd, conn) is ep for fd, conn in f2c.items()):
         out.append("fd_to_conn")
     po = getattr(srv, "poll_object", None)
-    if po is not None and any(fd in po.reg for fd in fds):
+    if po is not None and any(owner_ep(fd, (f2c or {}).get(fd)) is ep for fd in po.reg):
         out.append("poll registrations")
     return out
 
@@ -1017,6 +1055,8 @@ def check_serving(sc, probe):
 def judge(sc, prop):
     """final phase + oracles of a history that has been applied to scenario sc"""
     bad = []
+    sc.world.tick += 1              # time passes: hooks that were taking their time finish
+    sc.settle()
     if True:
         if prop == "C17":
             bad += check_oneshot(sc)
@@ -1025,9 +1065,13 @@ def judge(sc, prop):
                 sc.apply("X")
             bad += check_closed(sc)
         else:
+            sc.world.tick += 1
             probe = sc.connect("G")
             sc.settle()
+            sc.world.tick += 1
             sc.call(probe)
+            sc.settle()
+            sc.world.tick += 1
             sc.settle()
             bad += check_serving(sc, probe)
         summary = dict(threads=[(co.name, co.state, co.why if co.state == "blocked" else (co.result[0] if co.result else None)) for co in sc.world.sched.cos],
@@ -1035,9 +1079,9 @@ def judge(sc, prop):
     return bad, summary
 
 
-def run_history(kind, with_auth, hist, prop, interp=None):
+def run_history(kind, with_auth, hist, prop, interp=None, slow_hooks=False):
     """one history; returns (problems, scenario summary).  prop: 'C16' or 'C17'"""
-    sc = Scenario(kind, with_auth, interp)
+    sc = Scenario(kind, with_auth, interp, slow_hooks)
     try:
         for ev in hist:
             sc.apply(ev)
